@@ -24,15 +24,15 @@ import (
 type CancelVariant int
 
 const (
-	CvParkedDeliveredBeforeRelease CancelVariant = iota // loop parked at an iteration boundary, cancel fully delivered, then released
-	CvParkedReleaseRacesDelivery                        // loop parked, cancel acknowledged and loop released at the same time
-	CvInsideRun                                         // some task is inside Run
-	CvRacingLastExit                                    // cancel issued together with the release of the last task
-	CvWaitingBehindBusy                                 // job waits behind a busy slot (no delay)
-	CvWaitingPendingDelay                               // job waits with a pending start delay
-	CvWaitingExpiredDelayBehindBusy                     // delay expired, but the slot is busy
-	CvDuplicateConcurrent                               // two concurrent cancels of the same running job
-	CvDeliveredAtRunEntry                               // the cancel is delivered between the scheduler's launch of a task and the runner's entry: the runner refuses it
+	CvParkedDeliveredBeforeRelease  CancelVariant = iota // loop parked at an iteration boundary, cancel fully delivered, then released
+	CvParkedReleaseRacesDelivery                         // loop parked, cancel acknowledged and loop released at the same time
+	CvInsideRun                                          // some task is inside Run
+	CvRacingLastExit                                     // cancel issued together with the release of the last task
+	CvWaitingBehindBusy                                  // job waits behind a busy slot (no delay)
+	CvWaitingPendingDelay                                // job waits with a pending start delay
+	CvWaitingExpiredDelayBehindBusy                      // delay expired, but the slot is busy
+	CvDuplicateConcurrent                                // two concurrent cancels of the same running job
+	CvDeliveredAtRunEntry                                // the cancel is delivered between the scheduler's launch of a task and the runner's entry: the runner refuses it
 	cvCount
 )
 
